@@ -8,7 +8,7 @@ from typing import Any, Dict, List, Optional, Set, Tuple
 
 from .absint import Const, NumV, Obj, Operand, Seq, StrV, Tmpl, Union, Unknown, V, alts_of, interp
 from .core import AnalysisError, Ctx, rule
-from .pyast import ast_contains, pyfacts, unparse
+from .pyast import ast_contains, call_name, names_loaded, pyfacts, unparse, walk_no_nested
 from .rules_abs import _renderings, rule_values, walk
 
 ELEMENTS_REL = "coco/b09/elements.py"
@@ -335,3 +335,85 @@ def e7(ctx: Ctx):
     lens = sorted({c.comparators[0].value for fn_ in scope for c in ast.walk(fn_) if isinstance(c, ast.Compare) and isinstance(c.left, ast.Call) and getattr(c.left.func, "id", "") == "len" and len(c.ops) == 1 and isinstance(c.ops[0], ast.LtE) and isinstance(c.comparators[0], ast.Constant)} | {a.value + 0 for fn_ in scope for a in ast.walk(fn_) if isinstance(a, ast.Constant) and isinstance(a.value, int) and not isinstance(a.value, bool) and a.value in (2, 3) and any(isinstance(p_, ast.Assign) and p_.value is not None and any(x is a for x in ast.walk(p_.value)) for p_ in ast.walk(fn_))})
     okf = lens == [2, 3]
     ctx.idiom("scalar-init-filter", bool(lens), okf, "" if okf else f"names are pre-initialised when their length is at most {lens}; user scalars are one or two characters (three with `$`), anything longer is a name the tool generated (arr_*, tmp_*, display ...)", file="coco/b09/visitors.py", line=vi.lineno, props=["C03"])
+
+
+# ---------------------------------------------------------------------------
+# E19 DIM-EMISSION
+
+
+def _depends_on(fn: ast.FunctionDef, e: ast.AST, name: str, before: Optional[int] = None, depth: int = 0) -> bool:
+    """Does expression `e` (in `fn`) load `name`, directly or through locals assigned from it?"""
+    if depth > 6:
+        return False
+    for n in ast.walk(e):
+        if isinstance(n, ast.Name) and isinstance(n.ctx, ast.Load):
+            if n.id == name:
+                return True
+            for a in ast.walk(fn):
+                tgt = None
+                if isinstance(a, ast.Assign) and len(a.targets) == 1 and isinstance(a.targets[0], ast.Name):
+                    tgt, val = a.targets[0].id, a.value
+                elif isinstance(a, ast.AnnAssign) and isinstance(a.target, ast.Name) and a.value is not None:
+                    tgt, val = a.target.id, a.value
+                elif isinstance(a, ast.AugAssign) and isinstance(a.target, ast.Name):
+                    tgt, val = a.target.id, a.value
+                if tgt == n.id and tgt != name and a.lineno <= getattr(n, "lineno", 10**9) and _depends_on(fn, val, name, None, depth + 1):
+                    return True
+    return False
+
+
+@rule("E19", "DIM-EMISSION: every text a DIM statement returns carries the type declaration it was given; names are grouped by size without losing any (no grouping of unsorted data by adjacency)", ["C10", "C11"], floor=1, default_props=["C10"])
+def e19(ctx: Ctx):
+    py = pyfacts(ctx)
+    ci = py.cls("BasicDimStatement")
+    n_sites = 0
+    for mn, fn in sorted(ci.methods.items()):
+        params = [a.arg for a in fn.args.args[1:]]
+        rets = [r for r in walk_no_nested(fn) if isinstance(r, ast.Return) and r.value is not None]
+        if len(params) < 2 or not rets:
+            continue
+        for p_ in params:
+            users = [r for r in rets if _depends_on(fn, r.value, p_)]
+            if not users or len(users) == len(rets):
+                if users:
+                    n_sites += 1
+                    ctx.ob(f"BasicDimStatement.{mn}:{p_}", True, file=ELEMENTS_REL, line=fn.lineno)
+                continue
+            n_sites += 1
+            lost = [r for r in rets if r not in users]
+            # a return under a test of the parameter itself (nothing to add) is not a loss
+            real = []
+            for r in lost:
+                guards = [g for g in ast.walk(fn) if isinstance(g, ast.If) and any(x is r for b in g.body + g.orelse for x in ast.walk(b))]
+                if not any(p_ in names_loaded(g.test) for g in guards):
+                    real.append(r)
+            ok = not real
+            ctx.ob(
+                f"BasicDimStatement.{mn}:{p_}",
+                ok,
+                "" if ok else f"`{mn}` returns text without its parameter `{p_}` on the path ending at line {real[0].lineno} while its other returns include it: the declaration loses that part (e.g. the `: STRING[n]` size) for some option values",
+                file=ELEMENTS_REL,
+                line=real[0].lineno if real else fn.lineno,
+                props=["C10", "C11"],
+            )
+    ctx.need(n_sites >= 1, "BasicDimStatement", "no emitting helper with a text parameter found")
+    # grouping by adjacency: itertools.groupby over data that was not sorted by the same key drops all but the last run of a key when the result is made a mapping
+    for rel, m in sorted(py.modules.items()):
+        if not rel.startswith("coco/b09/"):
+            continue
+        for n in ast.walk(m.tree):
+            if isinstance(n, ast.Call) and call_name(n) == "groupby" and n.args:
+                src = n.args[0]
+                key = next((k.value for k in n.keywords if k.arg == "key"), n.args[1] if len(n.args) > 1 else None)
+                srt = src if isinstance(src, ast.Call) and call_name(src) == "sorted" else None
+                skey = next((k.value for k in srt.keywords if k.arg == "key"), None) if srt is not None else None
+                ok = srt is not None and (unparse(skey) if skey is not None else None) == (unparse(key) if key is not None else None)
+                ctx.ob(f"{rel}:groupby@{_enclosing(m.tree, n)}", ok, "" if ok else f"`{unparse(n)[:80]}` groups neighbouring items only and its input is not sorted by the same key: items with an equal key that are not adjacent form separate groups (a mapping built from them keeps only the last)", file=rel, line=n.lineno)
+
+
+def _enclosing(tree: ast.AST, node: ast.AST) -> str:
+    best = "<module>"
+    for f in ast.walk(tree):
+        if isinstance(f, (ast.FunctionDef, ast.ClassDef)) and any(x is node for x in ast.walk(f)):
+            best = f.name if isinstance(f, ast.FunctionDef) else best
+    return best
